@@ -261,9 +261,29 @@ func ruleDaemonLog(r *Run) {
 			}
 		}
 	}
+	// functions that are handed the address of the iterator's header (methods of a header type)
+	hdrOf := map[*ssa.Function]ssa.Value{}
+	for g, rv := range recvOf {
+		for _, c := range callsIn(g) {
+			callee := staticCallee(c)
+			if callee == nil || callee.Blocks == nil || callee.Pkg != pn.Pkg {
+				continue
+			}
+			for i, a := range c.Common().Args {
+				if f, base, ok := fieldNameOf(a); ok && f == "header" && base == rv && i < len(callee.Params) {
+					hdrOf[callee] = callee.Params[i]
+				}
+			}
+		}
+	}
 	var grp []*ssa.Function
 	for g := range recvOf {
 		grp = append(grp, g)
+	}
+	for g := range hdrOf {
+		if recvOf[g] == nil {
+			grp = append(grp, g)
+		}
 	}
 	sort.Slice(grp, func(i, j int) bool { return grp[i].Pos() < grp[j].Pos() })
 	parentOf := func(v ssa.Value) *ssa.Function {
@@ -275,6 +295,21 @@ func ruleDaemonLog(r *Run) {
 	isRecvFieldAddr := func(v ssa.Value, name string) bool {
 		f, base, ok := fieldNameOf(v)
 		return ok && f == name && (base == recv || base == recvOf[parentOf(v)])
+	}
+	// the header bytes: i.header, or the header parameter of a header method
+	isHeaderAddr := func(v ssa.Value) bool {
+		if f, base, ok := fieldNameOf(v); ok && f == "header" && (base == recv || base == recvOf[parentOf(v)]) {
+			return true
+		}
+		if in, ok := v.(ssa.Instruction); ok {
+			_ = in
+		}
+		for _, hp := range hdrOf {
+			if v == hp {
+				return true
+			}
+		}
+		return false
 	}
 	isRecvFieldLoad := func(v ssa.Value, name string) bool {
 		f, base, ok := loadOfField(v)
@@ -370,7 +405,7 @@ func ruleDaemonLog(r *Run) {
 				call = c
 			}
 			if call != nil && depth < 3 {
-				if h := staticCallee(call); h != nil && recvOf[h] != nil && h != pn {
+				if h := staticCallee(call); h != nil && (recvOf[h] != nil || hdrOf[h] != nil) && h != pn {
 					for _, ret := range returnsOf(h) {
 						if idx < len(ret.Results) {
 							out = append(out, retLeaves(ret.Results[idx], depth+1)...)
@@ -446,7 +481,7 @@ func ruleDaemonLog(r *Run) {
 		agood = false
 		oa.Fail(r.pos(readFull.Pos()), "io.ReadFull reads from %s", describe(readFull.Call.Args[0], 0))
 	}
-	if sl, ok := readFull.Call.Args[1].(*ssa.Slice); !ok || !isRecvFieldAddr(sl.X, "header") || sl.Low != nil || sl.High != nil {
+	if sl, ok := readFull.Call.Args[1].(*ssa.Slice); !ok || !isHeaderAddr(sl.X) || sl.Low != nil || sl.High != nil {
 		agood = false
 		oa.Fail(r.pos(readFull.Pos()), "io.ReadFull does not fill the whole header (%s)", describe(readFull.Call.Args[1], 0))
 	}
@@ -519,7 +554,7 @@ func ruleDaemonLog(r *Run) {
 		allInstrs(g, func(in ssa.Instruction) {
 			switch x := in.(type) {
 			case *ssa.IndexAddr:
-				if isRecvFieldAddr(x.X, "header") {
+				if isHeaderAddr(x.X) {
 					if idx, ok := constInt(x.Index); ok {
 						if idx != intOf(fdIndex) {
 							good = false
@@ -543,7 +578,7 @@ func ruleDaemonLog(r *Run) {
 						oc.Fail(r.pos(x.Pos()), "frame size is decoded with %s, stdcopy writes binary.BigEndian.PutUint32", callee.String())
 					}
 					sl, ok := x.Call.Args[len(x.Call.Args)-1].(*ssa.Slice)
-					if !ok || !isRecvFieldAddr(sl.X, "header") {
+					if !ok || !isHeaderAddr(sl.X) {
 						good = false
 						oc.Fail(r.pos(x.Pos()), "frame size is not decoded from the header")
 					} else {
